@@ -82,24 +82,29 @@ class Join(Operator):
         # instead of being #-qualified like other shared components.
         viral_common = merged_viral_attribute_names([op.components for op in operands], set(using))
 
+        # Role of each `using` key in the result. Computed here and applied to the copies made
+        # below: the operands are the stored datasets, later statements read them again.
+        using_roles: Dict[str, Dict[str, Role]] = {}
         for op in operands:
             for comp in op.components.values():
+                comp_role = comp.role
                 if comp.name in using:
                     is_identifier = all(
                         operand.components[comp.name].role == Role.IDENTIFIER
                         for operand in operands
                         if comp.name in operand.get_components_names()
                     )
-                    comp.role = (
+                    comp_role = (
                         Role.IDENTIFIER
                         if is_identifier
                         else Role.MEASURE
                         if comp.role == Role.IDENTIFIER
                         else comp.role
                     )
+                    using_roles.setdefault(op.name, {})[comp.name] = comp_role
                 if comp.name not in nullability:
                     nullability[comp.name] = copy(comp.nullable)
-                if comp.role == Role.IDENTIFIER:
+                if comp_role == Role.IDENTIFIER:
                     nullability[comp.name] = False
                 elif comp.name in totally_common:
                     nullability[comp.name] |= copy(comp.nullable)
@@ -117,6 +122,9 @@ class Join(Operator):
 
             for component_name, component in components.items():
                 component.nullable = nullability[component_name]
+                component.role = using_roles.get(operand_name, {}).get(
+                    component_name, component.role
+                )
                 if component_name in viral_common:
                     if component_name not in merged_components:
                         component.name = component_name
